@@ -2571,8 +2571,7 @@ def _one_info_arguments_kw_defaults(self: fst.FST, static: onestatic, idx: int |
         prefix = ' = '
 
     else:
-        ln, col, _, _ = arg.f.loc
-        col += len(arg.arg)
+        _, _, ln, col = arg.f.loc  # no annotation so the arg ends where its name ends (source name may be longer than the normalized `arg.arg`)
         prefix = '='
 
     if default := self.a.kw_defaults[idx]:
